@@ -159,7 +159,12 @@ func (r *relay) relayFrames(closing chan bool) error {
 	// Communicates to the consuming writer goroutine that the reader (the calling goroutine of this
 	// method) is done.
 	readerDone := make(chan struct{})
-	defer func() { readerDone <- struct{}{} }()
+	defer func() {
+		readerDone <- struct{}{}
+		// The writer still delivers what this reader had accepted before it ended; the caller
+		// closes the connections as soon as this function returns.
+		<-r.writerDone
+	}()
 
 	// Communicates errors occuring on the writer goroutine to the reader goroutine.
 	writerErr := make(chan error, 1)
@@ -182,6 +187,18 @@ func (r *relay) relayFrames(closing chan bool) error {
 				// Once an output error has occurred, the remaining frames are drained from the channel
 				// without sending them.
 			case <-readerDone:
+				// The reader is done, but frames it accepted (the end of a response that was
+				// followed by EOF, for instance) may still be queued: they are delivered first.
+				for err == nil {
+					select {
+					case f := <-r.output:
+						r.destMu.Lock()
+						err = f.send(r.dest)
+						r.destMu.Unlock()
+					default:
+						return
+					}
+				}
 				return
 			}
 		}
